@@ -564,3 +564,14 @@ func HTTPConnect(addr, host string, hdr map[string]string, timeout time.Duration
 	_ = c.SetDeadline(time.Time{})
 	return 200, c, br, nil
 }
+
+// PeekProxyResp returns the latest NewProxyResp received for a proxy name, if any.
+func (sc *ScriptedClient) PeekProxyResp(name string) (*msg.NewProxyResp, int) {
+	sc.mu.Lock()
+	defer sc.mu.Unlock()
+	l := sc.proxyResps[name]
+	if len(l) == 0 {
+		return nil, 0
+	}
+	return l[len(l)-1], len(l)
+}
